@@ -34,6 +34,25 @@ PROBES = [
     'line  \nbreak\\\nsoft\n~~s~~ <http://a.b> \\* $m$ [[w|p]] {{x}}\n',
 ]
 
+
+def _same_string_probes(dest, title, order):
+    """One string in every syntactic context that processes it differently (inline destination / title, reference
+    definition, fence info string, autolink / text / code / raw HTML): a result remembered per string, or any other
+    state keyed by content, shows as soon as a later context meets the string again.  Two families with the contexts
+    in opposite order, so that each context is once the first and once a later one."""
+    ctx = [
+        '[a](%s "%s")\n' % (dest, title),
+        "![a](<%s> '%s')\n" % (dest, title),
+        '[r]: %s "%s"\n\n[r] ![r]\n' % (dest, title),
+        '```%s %s\ncode\n```\n' % (dest, title),
+        '<http://h%s> %s %s `%s %s` <a href="%s" title="%s">\n' % (dest, dest, title, dest, title, dest, title),
+    ]
+    return ctx if order > 0 else ctx[::-1]
+
+
+PROBES += _same_string_probes('/q?a=1&region=eu&copy', 'Q&A &copy 2020 \\* &amp', 1)
+PROBES += _same_string_probes('/p?b=2&sect=9&reg', 'R&D &reg 1999 \\_ &lt', -1)
+
 RENDERER_OPS = [
     ('Html', {}), ('Html', {'process_html_tokens': False}), ('Html', {'html_escape_double_quotes': True}),
     ('Markdown', {}), ('Markdown', {'max_line_length': 20}), ('Markdown', {'normalize_whitespace': True}),
